@@ -140,6 +140,16 @@ MUTANTS = [
     m('C10', 'zero_cliques_not_in_model', (INF, "        if self.structural_zeros is not None:\n            cliques += list(self.structural_zeros.keys())\n\n        model = GraphicalModel", "        model = GraphicalModel")),
     m('C10', 'active_uses_large_negative', (FA, "        vals[idx] = -np.inf\n", "        vals[idx] = -100.0\n")),
     m('C10', 'ig_theta_nan_to_num', (INF, "            theta = theta - a/c/total * g\n", "            theta = theta - a/c/total * g\n            theta = CliqueVector({cl: self.Factor(theta[cl].domain, np.nan_to_num(theta[cl].values, neginf=-50.0)) for cl in theta})\n")),
+    # ---- C13 ------------------------------------------------------------
+    m('C13', 'groups_cached_across_calls', (INF, "        self.groups = defaultdict(lambda: [])\n", "        if not hasattr(self, 'groups'): self.groups = defaultdict(lambda: [])\n")),
+    m('C13', 'warm_potentials_always_combined', (INF, "        if self.warm_start and hasattr(self, 'model'):\n            model.potentials.combine(self.model.potentials)", "        if hasattr(self, 'model'):\n            model.potentials.combine(self.model.potentials)")),
+    m('C13', 'measurements_sorted_in_place', (INF, "        measurements = self.fix_measurements(measurements)\n        options['callback'] = callback", "        measurements.sort(key=lambda m: len(m[3]))\n        measurements = self.fix_measurements(measurements)\n        options['callback'] = callback")),
+    m('C13', 'y_centered_in_place', (INF, "            assert np.isscalar(noise), 'noise must be a real value, given ' + str(noise)", "            assert np.isscalar(noise), 'noise must be a real value, given ' + str(noise)\n            np.maximum(y, 0, out=y)")),
+    m('C13', 'total_remembered', (INF, "        if total is None:\n            # find the minimum variance estimate", "        if total is None and hasattr(self, 'model'): total = self.model.total\n        if total is None:\n            # find the minimum variance estimate")),
+    m('C13', 'potentials_reuse_previous_model', (INF, "        model.potentials = CliqueVector.zeros(self.domain, model.cliques)\n", "        model.potentials = CliqueVector.zeros(self.domain, model.cliques)\n        if hasattr(self, 'model') and set(self.model.cliques) == set(model.cliques):\n            model.potentials = self.model.potentials\n            for cl in model.potentials: model.potentials[cl].values[...] = 0\n")),
+    m('C13', 'rda_reuses_returned_marginals_buffer', (INF, "        w = v = model.belief_propagation(theta)\n        beta = 0\n", "        w = v = model.belief_propagation(theta)\n        if hasattr(self, '_w') and set(self._w) == set(w):\n            for cl in w: np.copyto(self._w[cl].values, w[cl].values)\n        self._w = w\n        beta = 0\n"), (INF, "        model.marginals = w\n        model.potentials = model.mle(w) ", "        model.marginals = self._w = w\n        model.potentials = model.mle(w) ")),
+    m('C13', 'zeros_spec_normalised_in_place', (INF, "        self.structural_zeros = CliqueVector({})\n        for cl in structural_zeros:", "        self.structural_zeros = CliqueVector({})\n        for cl in list(structural_zeros):\n            structural_zeros[cl] = sorted(structural_zeros[cl])\n        for cl in structural_zeros:")),
+    m('C13', 'stepsize_option_sticky', (INF, "        options['callback'] = callback\n        if callback is None and self.log:", "        self._opts = dict(getattr(self, '_opts', {}), **options); options = self._opts\n        options['callback'] = callback\n        if callback is None and self.log:")),
 ]
 
 
